@@ -84,7 +84,7 @@ theorem updateW_done (pr : PrInfo) : ∀ (ds : List Dest) (l : Loc) (prev : Comm
     | none => exact hd
     | some t =>
       simp only
-      cases l.merge (.w d pr.src) [t, prev] with
+      cases l.mergeN pr.noOct (.w d pr.src) t prev with
       | none => exact hd
       | some l' =>
         simp only
